@@ -172,10 +172,9 @@ end Verify
 /-! ### auditor (`akd/src/auditor.rs`) -/
 namespace Auditor
 
-/-- `verify_append_only_hash` (auditor.rs:89-119): rebuild a tree from the nodes in auditor
-mode and compare its root hash -/
-def appendOnlyHash (c : Cfg) (nodes : List AzksElement) (expected : Dig) (latestEpoch : Option Nat) :
-    Except VErr Unit :=
+/-- the rebuild of `verify_append_only_hash` (auditor.rs:89-119): a tree from the nodes, in
+auditor mode; returns its root hash -/
+def rebuildRoot (c : Cfg) (nodes : List AzksElement) (latestEpoch : Option Nat) : Except VErr Dig :=
   match ({} : NodeStore).azksNew c with
   | .error _ => .error .audit
   | .ok (s, a) =>
@@ -187,16 +186,56 @@ def appendOnlyHash (c : Cfg) (nodes : List AzksElement) (expected : Dig) (latest
     | .ok (s, a) =>
       match s.rootHash c a with
       | .error _ => .error .audit
-      | .ok h => if h = expected then .ok () else .error .audit
+      | .ok h => .ok h
 
-/-- `verify_consecutive_append_only` (auditor.rs:63-83) -/
+/-- `verify_append_only_hash` (auditor.rs:89-119) -/
+def appendOnlyHash (c : Cfg) (nodes : List AzksElement) (expected : Dig) (latestEpoch : Option Nat) :
+    Except VErr Unit :=
+  match rebuildRoot c nodes latestEpoch with
+  | .error e => .error e
+  | .ok h => if h = expected then .ok () else .error .audit
+
+/-- sort key of the prefix-freeness check: the normalised label bytes, then the length -/
+def keyLe (a b : NodeLabel) : Bool :=
+  match NodeLabel.cmpBytes (a.getPrefix a.len).val.toList (b.getPrefix b.len).val.toList with
+  | .lt => true
+  | .gt => false
+  | .eq => a.len ≤ b.len
+
+def insertKey (x : NodeLabel) : List NodeLabel → List NodeLabel
+  | [] => [x]
+  | y :: ys => if keyLe x y then x :: y :: ys else y :: insertKey x ys
+
+def adjacentFree : List NodeLabel → Bool
+  | a :: b :: rest => !a.isPrefixOf b && adjacentFree (b :: rest)
+  | _ => true
+
+/-- fix D2 (auditor.rs): the labels of a node set must be well-formed (at most 256 bits, no bit set
+beyond the length) and pairwise prefix-free (no duplicates, none a prefix of another); checked on
+the list sorted by (bytes, length), where a prefix and its extensions are adjacent -/
+def labelsPrefixFree (ls : List NodeLabel) : Bool :=
+  ls.all (fun l => decide (l.len ≤ 256) && decide (l.getPrefix l.len = l)) && adjacentFree (ls.foldr insertKey [])
+
+/-- `verify_consecutive_append_only` (auditor.rs:63-83) as repaired -/
 def consecutive (c : Cfg) (p : NodeStore.SingleAppendOnlyProof) (startHash endHash : Dig) (endEpoch : Nat) :
     Except VErr Unit :=
+  if !labelsPrefixFree ((p.unchanged ++ p.inserted).map (·.label)) then .error .audit
+  else
   match appendOnlyHash c p.unchanged startHash none with
   | .error e => .error e
   | .ok () =>
     let ins := p.inserted.map fun x => (⟨x.label, c.leafHash x.value endEpoch⟩ : AzksElement)
     if endEpoch = 0 then .error .panic   -- `end_epoch - 1` underflows
+    else appendOnlyHash c (p.unchanged ++ ins) endHash (some (endEpoch - 1))
+
+/-- the auditor of the pinned commit: no check on the node set (defect D2) -/
+def consecutiveLegacy (c : Cfg) (p : NodeStore.SingleAppendOnlyProof) (startHash endHash : Dig) (endEpoch : Nat) :
+    Except VErr Unit :=
+  match appendOnlyHash c p.unchanged startHash none with
+  | .error e => .error e
+  | .ok () =>
+    let ins := p.inserted.map fun x => (⟨x.label, c.leafHash x.value endEpoch⟩ : AzksElement)
+    if endEpoch = 0 then .error .panic
     else appendOnlyHash c (p.unchanged ++ ins) endHash (some (endEpoch - 1))
 
 /-- `audit_verify` (auditor.rs:24-56) -/
